@@ -126,8 +126,10 @@ def same(got, exp):
     return len(got) == len(exp) and all((a == b) or (isinstance(a, float) and isinstance(b, float) and math.isnan(a) and math.isnan(b)) for a, b in zip(got, exp))
 
 
-def make(cap, k, span, mode, reach=False, grid=False, period_us=1_000_000):
-    """mode: 'state' (consistency after every update), 'dtq' (+ one datetime window query), 'idxq' (+ one index window query);
+def make(cap, k, span, mode, reach=False, grid=False, period_us=1_000_000, halfgrid=False):
+    """halfgrid: datetime query bounds are enumerated on the half-slot grid (concrete datetimes exactly between two slots and on slots:
+    together with grid=True the whole path runs the code's float arithmetic in IEEE).
+    mode: 'state' (consistency after every update), 'dtq' (+ one datetime window query), 'idxq' (+ one index window query);
     span is in sampling periods."""
     def fn(ex):
         set_period(period_us)
@@ -160,8 +162,12 @@ def make(cap, k, span, mode, reach=False, grid=False, period_us=1_000_000):
             ex.check(same(got, expq), f"window({i0}, {i1}) = {got}, reference slice of the covered range = {expq}")
             return
         # datetime query
-        qs = ex.int_("qs", -2 * PUS, (span + 3) * PUS)
-        qe = ex.int_("qe", -2 * PUS, (span + 3) * PUS)
+        if halfgrid:
+            qs = (ex.choice("qs_half", 2 * (span + 5)) - 4) * (PUS // 2)
+            qe = (ex.choice("qe_half", 2 * (span + 5)) - 4) * (PUS // 2)
+        else:
+            qs = ex.int_("qs", -2 * PUS, (span + 3) * PUS)
+            qe = ex.int_("qe", -2 * PUS, (span + 3) * PUS)
         us = timedelta(microseconds=1)
         w = list(buf.window(core.EPOCH + qs * us, core.EPOCH + qe * us, fill_value=FILL))
         n = len(w)
@@ -247,6 +253,8 @@ def instances(tier):
         I("grid-cap3-k3-dtq", "make", (3, 3, 4, "dtq", False, True), "capacity 3, 3 updates on the slot grid (5 slots) + symbolic datetime query", budget_s=300, **kw),
         I("grid-cap3-k3-state-200ms", "make", (3, 3, 5, "state", False, True, 200_000),
           "sampling period 200 ms (not representable in binary; concrete grid timestamps run the code's float arithmetic in IEEE), capacity 3, 3 updates", budget_s=200, **kw),
+        I("grid-cap3-k2-dtq-halfgrid-200ms", "make", (3, 2, 4, "dtq", False, True, 200_000, True),
+          "sampling period 200 ms, grid updates, datetime query bounds on the half-slot grid (exact ties of normalize_timestamp, IEEE arithmetic)", budget_s=200, **kw),
         I("cap2-k2-state-300ms", "make", (2, 2, 4, "state", False, False, 300_000), "sampling period 300 ms, capacity 2, 2 symbolic updates", budget_s=200, **kw),
         I("grid-cap2-k2-idxq-300ms", "make", (2, 2, 4, "idxq", False, True, 300_000), "sampling period 300 ms, grid updates + index query", budget_s=200, **kw),
     ]
@@ -261,6 +269,8 @@ def instances(tier):
             I("cap3-k3-idxq", "make", (3, 3, 5, "idxq"), "capacity 3, 3 updates + index query (budgeted)", budget_s=900, exhaustive=False, validate_every=5000),
             I("cap3-k4-state", "make", (3, 4, 6, "state"), "capacity 3, 4 updates (budgeted)", budget_s=900, exhaustive=False, validate_every=5000),
             I("grid-cap4-k4-state-200ms", "make", (4, 4, 6, "state", False, True, 200_000), "sampling period 200 ms, capacity 4, 4 grid updates", budget_s=600, **kw),
+            I("grid-cap5-k3-dtq-halfgrid-300ms", "make", (5, 3, 7, "dtq", False, True, 300_000, True),
+              "sampling period 300 ms, capacity 5, 3 grid updates in 8 slots, half-slot-grid datetime queries (budgeted)", budget_s=900, exhaustive=False, **kw),
             I("grid-cap3-k3-dtq-300ms", "make", (3, 3, 4, "dtq", False, True, 300_000), "sampling period 300 ms, capacity 3, 3 grid updates + symbolic datetime query", budget_s=600, **kw),
             I("cap3-k3-at-70ms", "make_at", (3, 3, 4, False, 70_000), "sampling period 70 ms, MovingWindow.at", budget_s=600, exhaustive=False, **kw),
         ]
